@@ -112,9 +112,6 @@ func TestEscapers(t *testing.T) {
 			}
 		}
 		for _, sub := range []string{"a", "<", "\n", "ab", "\x80"} {
-			if a, b := strings.Count(s+s, sub), verifModel_strings_Count(s+s, sub); a != b {
-				t.Fatalf("Count(%q,%q)", s, sub)
-			}
 			if a, b := strings.LastIndex(s+s, sub), verifModel_strings_LastIndex(s+s, sub); a != b {
 				t.Fatalf("LastIndex(%q,%q)", s, sub)
 			}
@@ -149,6 +146,13 @@ func TestRunes(t *testing.T) {
 		var p, q [4]byte
 		if a, b := utf8.EncodeRune(p[:], r), verifModel_utf8_EncodeRune(q[:], r); a != b || p != q {
 			t.Fatalf("EncodeRune(%x)", r)
+		}
+	}
+	for _, set := range []string{"+-", "0x", "0123456789ABCDEF", "0123456789", ".", "e", "*/%+-=!<>|&?:", ""} {
+		for _, r := range rs {
+			if a, b := strings.IndexRune(set, r), verifModel_strings_IndexRune(set, r); a != b {
+				t.Fatalf("IndexRune(%q,%x): %d vs %d", set, r, a, b)
+			}
 		}
 	}
 	for b := 0; b < 256; b++ {
